@@ -300,7 +300,10 @@ def _compare(k, lf, rf):
             return a > b
         if k == 'ge':
             return a >= b
-        found = re.search(b, a, re.IGNORECASE) is not None
+        try:
+            found = re.search(b, a, re.IGNORECASE) is not None
+        except re.error as exc:
+            raise Undefined(f'invalid regular expression {b!r}: {exc}') from None
         return found if k == 'match' else not found
     return run
 
